@@ -9,3 +9,10 @@ pub fn differ<A: Len, B: Len>(a: &A, b: &B) -> bool {
     }
     false
 }
+
+/// C07.V16 control: template values sorted with an unstable sort (ties may swap).
+pub struct Value(pub i64, pub &'static str);
+
+pub fn sort_values(items: &mut Vec<Value>) {
+    items.sort_unstable_by(|a, b| a.0.cmp(&b.0));
+}
